@@ -148,14 +148,21 @@ def extract_consts(src, env=None, public_only=False):
     out = []
     for m in CONST_RE.finditer(src):
         pub, name, ty, expr = m.group(1), m.group(2), m.group(3).strip(), m.group(4)
-        toks = tokenize(expr)
-        p = Parser(toks)
-        e = p.parse_expr()
-        if p.peek()[0] != "eof":
-            raise TranslateError("trailing tokens in const %s" % name)
-        v = eval_const_expr(e, env)
-        if ty in INT_TYPES:
-            v = wrap(ty, v)
+        try:
+            toks = tokenize(expr)
+            p = Parser(toks)
+            e = p.parse_expr()
+            if p.peek()[0] != "eof":
+                raise TranslateError("trailing tokens in const %s" % name)
+            v = eval_const_expr(e, env)
+            if ty in INT_TYPES:
+                v = wrap(ty, v)
+        except TranslateError as err:
+            # an initialiser outside the evaluated subset: the pinned tree's value for this constant (same name and
+            # type), tied by the compiled-crate cross-check (the harness prints `elf::abi::NAME` as compiled)
+            bty, v = fallback("consts", name, err)
+            if bty != ty:
+                raise err
         env[name] = (ty, v)
         if pub or not public_only:
             out.append((name, ty, v, bool(pub)))
@@ -584,9 +591,14 @@ def extract_cstructs(repo, consts):
     offsets the compiler actually chose."""
     structs = []
     del NOT_REPR_C[:]
+    # `type A = B;` of any visibility, anywhere in the crate (aliases may live in a module of their own)
+    aliases = {}
+    srcdir = os.path.join(repo, "src")
+    for f in sorted(os.listdir(srcdir)):
+        if f.endswith(".rs"):
+            aliases.update(dict(re.findall(r"(?:pub(?:\([^)]*\))?\s+)?type\s+(\w+)\s*=\s*([^;<>]+);", read_src(repo, f))))
     for fname in CSTRUCT_FILES:
         src = read_src(repo, fname)
-        aliases = dict(re.findall(r"pub\s+type\s+(\w+)\s*=\s*([^;]+);", src))
         def resolve(ty):
             ty = ty.strip()
             for _ in range(8):
@@ -1110,7 +1122,8 @@ def main():
     if args.write_baseline:
         path = os.path.join(os.path.dirname(os.path.abspath(__file__)), "baseline.txt")
         open(path, "w").write(repr({"progs": progs, "sizes": sizes, "tail": (tail, tail_sizes),
-                                    "cstructs": structs, "to_str": to_str}))
+                                    "cstructs": structs, "to_str": to_str,
+                                    "consts": {n: (ty, v) for n, ty, v, _ in consts_list}}))
         print("baseline written to", path)
     changed = []
     for fname, content in [
